@@ -4,6 +4,7 @@ import (
 	"context"
 	"errors"
 	"fmt"
+	"math"
 	"strconv"
 	"strings"
 	"sync"
@@ -546,6 +547,34 @@ func getRow(ctx context.Context, c *VirtualTable, key *Key,
 	return ok, nil
 }
 
+// hasNumericTwin reports whether the tree holds a key that compares equal to
+// key but is stored differently: INTEGER n and REAL n.0 (or the two real
+// zeroes) are one key to SQLite, yet they live at different places in the
+// tree. Storing both would give the table two rows for one key, and can make
+// the tree panic, so the twin (even a deleted one, whose entry still exists)
+// makes the insert a key conflict.
+func (c *VirtualTable) hasNumericTwin(ctx context.Context, key *Key) (bool, error) {
+	if key.Type != v1proto.Type_INT && key.Type != v1proto.Type_REAL {
+		return false, nil
+	}
+	cursor, err := c.Tree.Root.Cursor(ctx)
+	if err != nil {
+		return false, err
+	}
+	if err = cursor.Ceil(ctx, key); err != nil {
+		return false, err
+	}
+	k, _, ok := cursor.Get()
+	if !ok || k.(*Key).Order(key) != 0 {
+		return false, nil
+	}
+	stored := k.(*Key)
+	if stored.Type != key.Type {
+		return true, nil
+	}
+	return key.Type == v1proto.Type_REAL && math.Signbit(stored.Real) != math.Signbit(key.Real), nil
+}
+
 func (c *VirtualTable) Insert(ctx context.Context, values map[int]interface{}) (int64, error) {
 	t := updateTime(ctx)
 	dbg("INSERT %v %+v", t, values)
@@ -572,6 +601,11 @@ func (c *VirtualTable) Insert(ctx context.Context, values map[int]interface{}) (
 	var old *v1proto.Row
 	var new v1proto.Row
 	var ot time.Time
+	if twin, err := c.hasNumericTwin(ctx, NewKey(key)); err != nil {
+		return 0, fmt.Errorf("get: %w", err)
+	} else if twin {
+		return 0, ErrS3DBConstraintPrimaryKey
+	}
 	ok, err := getRow(ctx, c, NewKey(key), &old, &ot)
 	if err != nil {
 		return 0, fmt.Errorf("get: %w", err)
